@@ -35,9 +35,24 @@ func (p *Parser) AddErrorListener(listener antlr.ErrorListener) {
 }
 
 func (p *Parser) Visit(visitor fql.FqlParserVisitor) interface{} {
-	return visitor.VisitProgram(p.tree.Program().(*fql.ProgramContext))
+	return visitor.VisitProgram(p.program().(*fql.ProgramContext))
 }
 
 func (p *Parser) Walk(listener fql.FqlParserListener) {
-	antlr.ParseTreeWalkerDefault.Walk(listener, p.tree.Program())
+	antlr.ParseTreeWalkerDefault.Walk(listener, p.program())
+}
+
+// program parses the start rule and then requires the end of the input.
+// The start rule of the grammar (program: head* body) is not anchored with
+// EOF, so the generated parser stops after the first complete program and
+// leaves the rest of the token stream unread; whatever is left is reported
+// to the error listeners as a syntax error instead of being ignored.
+func (p *Parser) program() fql.IProgramContext {
+	tree := p.tree.Program()
+
+	if next := p.tree.GetCurrentToken(); next != nil && next.GetTokenType() != antlr.TokenEOF {
+		p.tree.NotifyErrorListeners("extraneous input '"+next.GetText()+"' expecting <EOF>", next, nil)
+	}
+
+	return tree
 }
